@@ -72,6 +72,8 @@ Definition flat_obs (o : obs) : list tok :=
   | OCut w => [TS "cut"; TN w]
   | OErr e => [TS "err"; TN (err_code e)]
   | OCan b => [TS "can"; TN (if b then 1 else 0)]
+  | OEnter x => [TS "enter"; TN x]
+  | OLeave x => [TS "leave"; TN x]
   end.
 
 Fixpoint ins_hist (e : nat * list nat) (l : list (nat * list nat)) :=
